@@ -1,3 +1,4 @@
+import GrmVerif.Lemmas.RecFirst
 import GrmVerif.Model.Recover
 /-!
 # C07 — error recovery always progresses and the error list matches the outcome
@@ -250,5 +251,49 @@ theorem clean_accept (G : Grammar) (A : Automaton) (w : List Nat)
           have := hlen _ _ _ _ _ h
           simp only [List.length_append, List.length_cons, List.length_nil] at this
           omega
+
+/-- **With recovery on, the first error is where recovery off reports its error** (the last clause
+of C04, at the level of the driver model): whatever the recoverer does, if the recovering driver
+reports a first error `e`, the same driver with a recoverer that always gives up — i.e. recovery
+off — stops with exactly one error at `e.pos`. -/
+theorem first_error_is_plain_error (G : Grammar) (A : Automaton) (w : List Nat)
+    (recover : Pos → Option (Pos × List (List Repair))) :
+    ∀ (fuel : Nat) (c : Pos) (v : Bool) (e : Err) (es : List Err),
+      recRun G A w recover fuel c [] = (v, e :: es) →
+      recRun G A w (fun _ => none) fuel c [] = (false, [⟨e.pos, []⟩]) := by
+  intro fuel
+  induction fuel with
+  | zero => intro c v e es h; simp [recRun] at h
+  | succ n ih =>
+    intro c v e es h
+    simp only [recRun] at h ⊢
+    cases hf : feed G A (nextTok G w c.pos) FUEL c.stack with
+    | shifted s => rw [hf] at h; exact ih _ v e es h
+    | accept s => rw [hf] at h; simp at h
+    | crash => rw [hf] at h; simp at h
+    | fuelOut => rw [hf] at h; simp at h
+    | error s =>
+      rw [hf] at h
+      simp only [] at h ⊢
+      cases hr : recover ⟨s, c.pos⟩ with
+      | none =>
+        rw [hr] at h
+        simp only [List.nil_append, Prod.mk.injEq, List.cons.injEq] at h
+        obtain ⟨_, he, _⟩ := h
+        rw [← he]; rfl
+      | some x =>
+        obtain ⟨c', rs⟩ := x
+        rw [hr] at h
+        simp only [] at h
+        by_cases hemp : rs.isEmpty = true
+        · rw [if_pos hemp] at h
+          simp only [List.nil_append, Prod.mk.injEq, List.cons.injEq] at h
+          obtain ⟨_, he, _⟩ := h
+          rw [← he]; rfl
+        · rw [if_neg hemp] at h
+          obtain ⟨rest, hrest⟩ := recRun_acc_prefix G A w recover n c' ([] ++ [⟨c.pos, rs⟩])
+          rw [h] at hrest
+          simp only [List.nil_append, List.singleton_append, List.cons.injEq] at hrest
+          rw [hrest.1]; rfl
 
 end GrmVerif.C07
